@@ -276,8 +276,7 @@ def coq_deps(vfile):
 def forbidden_scan():
     bad = []
     for v in glob.glob(os.path.join(COQ, "**", "*.v"), recursive=True):
-        txt = open(v, errors="replace").read()
-        txt = re.sub(r"\(\*.*?\*\)", "", txt, flags=re.S)
+        txt = strip_coq_comments(open(v, errors="replace").read())
         for i, line in enumerate(txt.splitlines(), 1):
             if FORBIDDEN.search(line):
                 bad.append("%s:%d: %s" % (os.path.relpath(v, VERIF), i, line.strip()[:120]))
@@ -291,9 +290,40 @@ def count_obligations(vfiles):
         p = os.path.join(COQ, v)
         if not os.path.exists(p):
             continue
-        txt = re.sub(r"\(\*.*?\*\)", "", open(p, errors="replace").read(), flags=re.S)
+        txt = strip_coq_comments(open(p, errors="replace").read())
         n += len(re.findall(r"\bQed\s*\.", txt))
     return n
+
+
+def strip_coq_comments(src):
+    """remove (* ... *) comments the way Coq's lexer sees them: they nest, and string literals (also inside
+    comments) hide comment delimiters -- generated files quote C text such as "(*var)->type" """
+    out, depth, i, n = [], 0, 0, len(src)
+    while i < n:
+        c = src[i]
+        if c == '"':
+            j = i + 1
+            while j < n:
+                if src[j] == '"':
+                    if j + 1 < n and src[j + 1] == '"':
+                        j += 2
+                        continue
+                    break
+                j += 1
+            if not depth:
+                out.append(src[i:j + 1])
+            i = j + 1
+        elif src[i:i + 2] == "(*":
+            depth += 1
+            i += 2
+        elif src[i:i + 2] == "*)" and depth:
+            depth -= 1
+            i += 2
+        else:
+            if not depth:
+                out.append(c)
+            i += 1
+    return "".join(out)
 
 
 def run_properties_file(pid, timeout=900):
@@ -303,7 +333,7 @@ def run_properties_file(pid, timeout=900):
         return False, "missing " + v, [], {}
     with Lock(os.path.join(COQ, ".lock")):
         rc, out = sh(["coqc", "-Q", ".", "H4", v], cwd=COQ, timeout=timeout)
-    txt = re.sub(r"\(\*.*?\*\)", "", open(os.path.join(COQ, v)).read(), flags=re.S)
+    txt = strip_coq_comments(open(os.path.join(COQ, v)).read())
     thms = re.findall(r"\b(?:Theorem|Lemma|Corollary)\s+([A-Za-z0-9_']+)", txt)
     # Parse Print Assumptions output blocks
     assum = {}
